@@ -47,6 +47,7 @@ type QHyp struct {
 	reads  map[int][]readRec // var index -> element reads indexed by that variable
 	done   map[string]bool
 	text   string
+	seq    int
 }
 
 type readRec struct {
@@ -281,7 +282,14 @@ func (e *Env) object(o types.Object) *SVal {
 		if p.Imm {
 			st = g.immState()
 		}
-		return g.load(st, p, o.Type())
+		r := g.load(st, p, o.Type())
+		if id := g.P.errGlobals[gv.String()]; id > 0 && p.Imm && r.K == KIface {
+			tag := bvLit(big.NewInt(int64(g.W.typeTag(types.NewPointer(types.NewNamed(types.NewTypeName(0, nil, "errors.errorString", nil), types.NewStruct(nil, nil), nil))))), 32)
+			if g.inQuant == 0 {
+				g.addAxiom(sAnd(sEq(r.Sub[0].Term, tag), sEq(r.Sub[1].Term, bv64(int64(1<<39)+int64(id)<<4))))
+			}
+		}
+		return r
 	case *types.Func:
 		fn := g.P.prog.FuncValue(o)
 		if fn == nil {
@@ -690,7 +698,11 @@ func (e *Env) quant(x *EQuant) *SVal {
 		if e.loopPre != nil {
 			capt.loopPre = g.clone(e.loopPre)
 		}
-		qh = &QHyp{vars: x.Vars, types: ts, body: x.Body, env: capt, guard: e.guard, reads: map[int][]readRec{}, done: map[string]bool{}, text: x.exprString()}
+		sq := g.seq + 1
+		if g.asmSeqOverride > 0 {
+			sq = g.asmSeqOverride
+		}
+		qh = &QHyp{vars: x.Vars, types: ts, body: x.Body, env: capt, guard: e.guard, reads: map[int][]readRec{}, done: map[string]bool{}, text: x.exprString(), seq: sq}
 	}
 	for i, qv := range x.Vars {
 		n := g.nm("q." + qv.Name)
